@@ -228,6 +228,35 @@ def run(ctx, model_ok):
             ctx.oracle_fail({"class": cls, "what": bad, "ops": rops, "impl": [val(l) if l else None for l in ls]})
         elif len(ctx.samples) < 10 and kind != "conv" and rng.random() < 0.02:
             ctx.sample({"text": text, "dec": dec, "thou": thou, "values": [val(l) for l in ls]})
+    # ---- the definitions still hold after further units were registered in the configured families (below the first and
+    # ---- behind the last index): conversions between configured units do not involve the new items
+    fams = {}
+    for u in units:
+        fams.setdefault(u["group"], []).append(u["index"])
+    reg = [{"op": "reset"}]
+    for gi, (g, idxs) in enumerate(sorted(fams.items())):
+        for tag, idx in (("a", min(idxs) - 1), ("z", max(idxs) + 1)):
+            if idx < 0:
+                continue
+            w = f"zzf{'abcdefgh'[gi % 8]}{tag}"
+            reg.append({"op": "dtype_item", "name": g, "index": idx, "format": "{value} " + w, "parse": ["{NUMBER:value} {TEXT:type:" + w + "}"],
+                        "up": "{value} / 7", "down": "{value} * 7", "names": [w]})
+    pairs = [(a, b) for a in units for b in units if a["kind"] == b["kind"] and a is not b]
+    if ctx.quick():
+        pairs = rng.sample(pairs, min(len(pairs), 250))
+    amts = [(rng.choice(["1", "2.5", "1000", O.numclass(rng)]), a, b) for (a, b) in pairs]
+    rr = C.run_impl(reg + [{"op": "exec", "lang": "en", "text": f"{lit(x)} {rng.choice(a['words'])} to {rng.choice(b['names'])}"} for (x, a, b) in amts] + [{"op": "reset"}])
+    for r_ in rr[1:len(reg)]:
+        ctx.count("registered-into-configured-family:" + str(r_.get("ret")))
+    for (x, a, b), r in zip(amts, rr[len(reg):-1]):
+        ctx.count("conv-after-registration")
+        ctx.seen(("after-registration", x, a["names"][0], b["names"][0]), True)
+        v = val(r["lines"][0]) if "lines" in r and r["lines"] else None
+        want = Fraction(x) * a["base"] / b["base"]
+        if v is None or v.get("t") != "DY" or (v["group"], v["index"]) != (b["group"], b["index"]) or not O.close(O.f64(v["v"]), want, scale=float(want)):
+            ctx.oracle_fail({"class": f"conv-after-registration:{a['names'][0]}->{b['names'][0]}",
+                             "what": f"after registering further units in the configured families {x} {a['names'][0]} to {b['names'][0]} gives {v}, the unit definitions give {float(want)!r}",
+                             "ops": reg + [{"op": "exec", "lang": "en", "text": f"{lit(x)} {a['words'][0]} to {b['names'][0]}"}, {"op": "reset"}]})
     ctx.exhaustive = True
     ctx.notes.append(f"{len(units)} units, {len(units) ** 2} ordered pairs, each visited under {len(convs)} separator convention(s)")
     if model_ok:
